@@ -11,14 +11,15 @@
 namespace sim {
 namespace rt {
 
-constexpr int MAXT = 40;
+constexpr int MAXT = 192;  // simulated threads per run (wide thread pools reach past babylon's 128-entry blocks)
+extern int g_vc_n;        // number of thread slots in use in this run: vector clock loops stop here
 constexpr int64_t TICK_NS = 50;
 
 struct VC {
   uint32_t c[MAXT];
   void clear() { memset(c, 0, sizeof(c)); }
   void join(const VC& o) {
-    for (int i = 0; i < MAXT; i++)
+    for (int i = 0; i < g_vc_n; i++)
       if (o.c[i] > c[i]) c[i] = o.c[i];
   }
 };
